@@ -163,8 +163,15 @@ impl Multiplexor<SmallRng> {
         let rng = SmallRng::from_rng(&mut rand::rng());
         #[cfg(penguin_rs_verif)]
         let rng = SmallRng::seed_from_u64(crate::verif_hooks::next_seed());
+        #[cfg(not(all(penguin_rs_verif, feature = "tokio-time")))]
         let (mux, taskdata) =
             Self::new_detailed::<_, std::time::Instant>(ws, config::Options::default(), rng);
+        #[cfg(all(penguin_rs_verif, feature = "tokio-time"))]
+        let (mux, taskdata) = Self::new_detailed::<_, crate::verif_hooks::SimInstant>(
+            ws,
+            config::Options::default(),
+            rng,
+        );
         taskdata.spawn(None);
         mux
     }
@@ -194,7 +201,11 @@ impl Multiplexor<SmallRng> {
         let rng = SmallRng::from_rng(&mut rand::rng());
         #[cfg(penguin_rs_verif)]
         let rng = SmallRng::seed_from_u64(crate::verif_hooks::next_seed());
+        #[cfg(not(all(penguin_rs_verif, feature = "tokio-time")))]
         let (mux, taskdata) = Self::new_detailed::<_, std::time::Instant>(ws, options, rng);
+        #[cfg(all(penguin_rs_verif, feature = "tokio-time"))]
+        let (mux, taskdata) =
+            Self::new_detailed::<_, crate::verif_hooks::SimInstant>(ws, options, rng);
         taskdata.spawn(task_joinset);
         mux
     }
